@@ -218,10 +218,9 @@ class HSEnumerator(
                     new_arguments[i] = succ_sub_program
                     new_program = Function(F, new_arguments)
                     hash_new_program = hash(new_program)
-                    if (
-                        hash_new_program not in self.hash_table_program[S]
-                        and new_program not in self.deleted
-                    ):
+                    # a deleted program is pushed as well: it is skipped when it is
+                    # popped (see query), which is where its successors are added
+                    if hash_new_program not in self.hash_table_program[S]:
                         self.hash_table_program[S].add(hash_new_program)
                         try:
                             priority: Ordered = self.compute_priority(S, new_program)
